@@ -109,7 +109,20 @@ func journalExtra(seed uint64, mode jmode, pad bool, storePct int) func(a *h.Asm
 					}
 				}
 				jop(a, mode, pad, h.VRJNAL, h.U(22), jTypStr)
-			case 4: // m[k]: mapping with value-typed key, value element
+			case 4: // m[k]: mapping with value-typed key, value element (half of the time a packed member at a non-zero offset)
+				if r.Chance(50) {
+					key := uint64(3 + r.Intn(2))
+					es := jMapSlot(key, 23)
+					off := uint64(16)
+					a.MstoreName(memJ, []byte("m"))
+					jop(a, mode, pad, h.RSVJNAL, h.U(memJ), h.U(23), jTypMap)
+					jop(a, mode, pad, h.IVVVJNAL, h.U(23), es, h.U(key), h.U(off), jTypP, jTypMap)
+					if !n.Static && r.Chance(storePct) {
+						a.Push(new(uint256.Int).Lsh(h.U(uint64(1+r.Intn(2))), 128)).Push(es).Op(h.SSTORE)
+					}
+					jop(a, mode, pad, h.VVJNAL, es, h.U(off), h.U(16), jTypP)
+					continue
+				}
 				key := uint64(1 + r.Intn(2))
 				es := jMapSlot(key, 23)
 				a.MstoreName(memJ, []byte("m"))
@@ -124,7 +137,12 @@ func journalExtra(seed uint64, mode jmode, pad bool, storePct int) func(a *h.Asm
 				a.MstoreName(memJ, []byte("arr"))
 				jop(a, mode, pad, h.RSVJNAL, h.U(memJ), h.U(24), jTypArr)
 				a.MstoreName(memJ+0x40, []byte("key-bytes"))
-				if r.Bool() {
+				if r.Chance(30) {
+					// reference-typed index key, packed member at offset 8
+					es3 := jMapSlot(10, 24)
+					jop(a, mode, pad, h.IRVVJNAL, h.U(24), es3, h.U(memJ+0x40), h.U(8), jTypP, jTypArr)
+					jop(a, mode, pad, h.VVJNAL, es3, h.U(8), h.U(8), jTypP)
+				} else if r.Bool() {
 					jop(a, mode, pad, h.IRVVJNAL, h.U(24), es, h.U(memJ+0x40), h.U(0), jTypU, jTypArr)
 					if !n.Static && r.Chance(storePct) {
 						a.PushU(uint64(1 + r.Intn(2))).Push(es).Op(h.SSTORE)
